@@ -361,6 +361,11 @@ func ShouldRespond(w Watcher, id string, request *discovery.DiscoveryRequest) (b
 		log.Warnf("ADS:%s: ACK ERROR %s %s:%s", stype, id, errCode.String(), request.ErrorDetail.GetMessage())
 		IncrementXDSRejects(request.TypeUrl, w.GetID(), errCode.String())
 		w.UpdateWatchedResource(request.TypeUrl, func(wr *WatchedResource) *WatchedResource {
+			// There may be no watch for this type: a NACK can be the first request we see for it, or
+			// can arrive after the client has unsubscribed from it.
+			if wr == nil {
+				return nil
+			}
 			wr.LastError = request.ErrorDetail.GetMessage()
 			return wr
 		})
